@@ -32,7 +32,7 @@ ASSUMPTIONS = [
 ]
 OBLIGATIONS = {"dscore:m=1": 20, "dscore:m>=2": 50, "dscore:perfect": 20,
                "dscore:inverse": 20, "dscore:heavy-ties": 20,
-               "dscore:identical-ens": 10, "dscore:wide-range": 20, "dscore:fine-lattice": 10, "ad:near-duplicates": 10, "ensrank:ref": 50, "pit:random": 30,
+               "dscore:identical-ens": 10, "dscore:wide-range": 20, "dscore:fine-lattice": 10, "eps:non-default": 20, "ad:near-duplicates": 10, "ensrank:ref": 50, "pit:random": 30,
                "pit:plain": 30, "pit:sudo": 30, "cvm": 50, "ad": 50, "ad:reject": 30,
                "alpha": 20, "n=1-sample": 5}
 
@@ -152,6 +152,10 @@ def gen_forecasts(rng, it, tier):
     tags.append("dscore:m=1" if m == 1 else "dscore:m>=2")
     case = {"kind": "dscore", "gen": kind, "obs": obs.astype(float),
             "sim": sim.astype(float), "tags": tags}
+    if not usewide and "dscore:fine-lattice" not in tags and \
+            not (kind.endswith("-ens") and m >= 2):
+        # values on the k/2 lattice: gaps of 0.5
+        case["eps"] = [1e-6, 1e-9, 1e-3, 0.05, 0.2][(it // 3) % 5]
     if usewide:
         case["maps"] = ["arctan", "cubic", "affine", "affine2"]   # exp would overflow
     if "dscore:fine-lattice" in tags:
@@ -185,7 +189,12 @@ def run_dscore_case(ctx, case, rng=None):
         fm = np.zeros((n, n))
         rk = np.zeros(n)
         ctx.api("ensrank")
-        ierr = C().ensrank(1e-6, np.ascontiguousarray(sim), fm, rk)
+        # tie tolerance: any value below the smallest gap between distinct values
+        # gives the same pairwise comparison
+        eps = float(case.get("eps", 1e-6))
+        if eps != 1e-6:
+            ctx.tag("eps:non-default")
+        ierr = C().ensrank(eps, np.ascontiguousarray(sim), fm, rk)
         rf, rr = ensrank_ref(sim)
         ctx.check("ensrank.ierr", ierr == 0, "ensrank|ierr", case, {"ierr": ierr})
         ctx.check("ensrank.fmat", bool(np.allclose(fm, rf, rtol=0, atol=1e-12)),
@@ -203,6 +212,12 @@ def run_dscore_case(ctx, case, rng=None):
         # correlation undefined: nothing is promised
         ctx.extra["dscore.degenerate-ranks"] += 1
         return
+    if case.get("eps", 1e-6) != 1e-6:
+        De = call(m_.dscore, obs, sim, eps=float(case["eps"]))
+        ctx.api("dscore")
+        ctx.check("dscore.tolerance-below-gap", abs(De - D) <= 1e-12,
+                  "dscore|depends-on-tie-tolerance-below-the-gaps", case,
+                  lambda: {"eps": case["eps"], "D_default": D, "D_eps": De})
     ctx.check("dscore.range", isinstance(D, float) and -1e-12 <= D <= 1 + 1e-12,
               "dscore|range", case, lambda: {"D": repr(D)})
     tags = case.get("tags", [])
